@@ -108,6 +108,8 @@ func (e *Engine) Run(fn *ssa.Function, init *State, args []AV) []Path {
 		// which stands for an arbitrary iteration; meeting the generalised
 		// header again ends the path.
 		if last, seen := it.visited[it.b]; seen {
+			// a later iteration: values created from here on are new ones
+			it.st.iter++
 			if last != it.st.splits || it.count[it.b] > 4096 {
 				if e.NoLoops || it.pred == nil || !it.b.Dominates(it.pred) {
 					out = append(out, Path{St: it.st, Cut: it.b})
@@ -375,6 +377,15 @@ func related(a, b string) bool {
 	}
 	c := b[len(a)]
 	return c == '.' || c == '[' || c == '|'
+}
+
+// inst: the suffix that makes names of values created at the same instruction
+// in different epochs (havocs) and iterations distinct.
+func (st *State) inst() string {
+	if st.iter == 0 {
+		return fmt.Sprint(st.epoch)
+	}
+	return fmt.Sprintf("%d~%d", st.epoch, st.iter)
 }
 
 func symForLoc(loc string, epoch int) string {
@@ -699,7 +710,7 @@ func (e *Engine) exec(st *State, in ssa.Instruction) ([]*State, []Path) {
 		}
 	case *ssa.MakeSlice:
 		n := e.eval(st, x.Len)
-		a := AV{Kind: KSym, Sym: fmt.Sprintf("makeslice(%s)#%s.%s@%d", n.name(), x.Parent().Name(), x.Name(), st.epoch), NonNil: true, Src: x}
+		a := AV{Kind: KSym, Sym: fmt.Sprintf("makeslice(%s)#%s.%s@%s", n.name(), x.Parent().Name(), x.Name(), st.inst()), NonNil: true, Src: x}
 		if n.Kind == KInt || n.Kind == KLin {
 			nn := n
 			a.Inner = &nn // len(make([]T, n)) == n
@@ -716,14 +727,14 @@ func (e *Engine) exec(st *State, in ssa.Instruction) ([]*State, []Path) {
 		st.env[x] = a
 	case *ssa.MakeMap, *ssa.MakeChan:
 		v := in.(ssa.Value)
-		st.env[v] = AV{Kind: KSym, Sym: fmt.Sprintf("make#%s.%s@%d", in.Parent().Name(), v.Name(), st.epoch), NonNil: true, Src: v}
+		st.env[v] = AV{Kind: KSym, Sym: fmt.Sprintf("make#%s.%s@%s", in.Parent().Name(), v.Name(), st.inst()), NonNil: true, Src: v}
 	case *ssa.MakeClosure:
 		fn, _ := x.Fn.(*ssa.Function)
 		st.env[x] = AV{Kind: KFunc, Fn: fn, Src: x}
 	case *ssa.Lookup:
 		m := e.eval(st, x.X)
 		k := e.eval(st, x.Index)
-		base := fmt.Sprintf("lookup(%s,%s)@%d", m.name(), k.name(), st.epoch)
+		base := fmt.Sprintf("lookup(%s,%s)@%s", m.name(), k.name(), st.inst())
 		if x.CommaOk {
 			tt := x.Type().(*types.Tuple)
 			st.env[x] = AV{Kind: KTuple, Elems: []AV{e.typed(st, base, tt.At(0).Type()), {Kind: KAtom, Sym: "ok:" + base}}}
@@ -736,7 +747,7 @@ func (e *Engine) exec(st *State, in ssa.Instruction) ([]*State, []Path) {
 		v := e.eval(st, x.Value)
 		st.events = append(st.events, Event{Kind: "store", Loc: "M:" + m.name() + "[" + k.name() + "]", Val: v, Instr: x, Fn: x.Parent(), Depth: len(e.stack) - 1})
 	case *ssa.Range:
-		st.env[x] = AV{Kind: KSym, Sym: fmt.Sprintf("range#%s.%s@%d", x.Parent().Name(), x.Name(), st.epoch)}
+		st.env[x] = AV{Kind: KSym, Sym: fmt.Sprintf("range#%s.%s@%s", x.Parent().Name(), x.Name(), st.inst())}
 	case *ssa.Next:
 		n := fmt.Sprintf("next#%s.%s@%d/%d", x.Parent().Name(), x.Name(), st.epoch, st.splits)
 		tt := x.Type().(*types.Tuple)
@@ -928,7 +939,16 @@ func (e *Engine) binop(st *State, x *ssa.BinOp) AV {
 				if !lr.empty() && lr.min() >= 0 && lr.max() <= rk && (rk&(rk+1)) == 0 {
 					return l // mask keeps every value of the range
 				}
-				return e.derived(st, fmt.Sprintf("(%s&%d)", l.name(), rk), iset{{0, rk}}, t)
+				img := iset{{0, rk}}
+				if low := rk & -rk; rk > 0 && !lr.empty() && lr.min() >= 0 && (rk+low)&(rk+low-1) == 0 && lr.max() < rk+low {
+					// run of high bits over a range below 2^w: the low k bits are cleared
+					a, b := lr.min()/low*low, lr.max()/low*low
+					if a == b {
+						return avInt(a)
+					}
+					img = iset{{a, b}}
+				}
+				return e.derived(st, fmt.Sprintf("(%s&%d)", l.name(), rk), img, t)
 			}
 		case token.OR:
 			if lconst && rconst {
@@ -1496,7 +1516,7 @@ func (e *Engine) opaqueCall(st *State, x *ssa.Call, name string, callee *ssa.Fun
 				e.havocPointee(st, full[i], shortName(name))
 			}
 		}
-		res = e.resultAV(st, x, fmt.Sprintf("%s#%s.%s@%d", shortName(name), x.Parent().Name(), x.Name(), st.epoch), m.NonNil)
+		res = e.resultAV(st, x, fmt.Sprintf("%s#%s.%s@%s", shortName(name), x.Parent().Name(), x.Name(), st.inst()), m.NonNil)
 	default:
 		// in-repo call that was not inlined (interface invoke, recursion,
 		// loops): consult effect summaries of every possible callee
@@ -1547,7 +1567,7 @@ func (e *Engine) opaqueCall(st *State, x *ssa.Call, name string, callee *ssa.Fun
 					e.havocPointee(st, a, shortName(name))
 				}
 			}
-			res = e.resultAV(st, x, fmt.Sprintf("%s#%s.%s@%d", shortName(name), x.Parent().Name(), x.Name(), st.epoch), nil)
+			res = e.resultAV(st, x, fmt.Sprintf("%s#%s.%s@%s", shortName(name), x.Parent().Name(), x.Name(), st.inst()), nil)
 			ev.Result = res
 			st.events = append(st.events, ev)
 			return res
@@ -1569,7 +1589,7 @@ func (e *Engine) opaqueCall(st *State, x *ssa.Call, name string, callee *ssa.Fun
 			// (done above) and its own package's state, but cannot reach this
 			// repository's memory that is not reachable from its arguments
 		}
-		res = e.resultAV(st, x, fmt.Sprintf("%s#%s.%s@%d", shortName(name), x.Parent().Name(), x.Name(), st.epoch), nil)
+		res = e.resultAV(st, x, fmt.Sprintf("%s#%s.%s@%s", shortName(name), x.Parent().Name(), x.Name(), st.inst()), nil)
 		if e.NonNilResult != nil {
 			rs := x.Call.Signature().Results()
 			for i := 0; i < rs.Len(); i++ {
@@ -1989,6 +2009,13 @@ func refineParent(st *State, term string, set iset) {
 			return
 		}
 		x, mul = body[:i], k
+	} else if i := strings.LastIndex(body, "&"); i > 0 {
+		var m int64
+		if _, err := fmt.Sscanf(body[i+1:], "%d", &m); err != nil || m <= 0 || fmt.Sprint(m) != body[i+1:] {
+			return
+		}
+		refineMasked(st, body[:i], m, set)
+		return
 	} else {
 		return
 	}
@@ -2011,6 +2038,108 @@ func refineParent(st *State, term string, set iset) {
 			phi = (hi+1)*mul - 1
 		}
 		pre = append(pre, iv{plo, phi})
+	}
+	st.terms[x] = inter(cur, norm(pre))
+}
+
+// derivedExact: term is a derived term "(X>>k)", "(X/k)" or "(X&m)" whose
+// restriction is carried over exactly to X by refineParent in state st, so the
+// term adds nothing to a description of the state in terms of X.
+func derivedExact(st *State, term string) bool {
+	if !strings.HasPrefix(term, "(") || !strings.HasSuffix(term, ")") {
+		return false
+	}
+	body := term[1 : len(term)-1]
+	num := func(t string) (int64, bool) {
+		var k int64
+		if _, err := fmt.Sscanf(t, "%d", &k); err != nil || fmt.Sprint(k) != t {
+			return 0, false
+		}
+		return k, true
+	}
+	parent := func(x string) (iset, bool) {
+		cur, ok := st.terms[x]
+		return cur, ok && !cur.empty() && cur.min() >= 0
+	}
+	if i := strings.LastIndex(body, ">>"); i > 0 {
+		k, ok := num(body[i+2:])
+		_, okp := parent(body[:i])
+		return ok && k >= 0 && k <= 40 && okp
+	}
+	if i := strings.LastIndex(body, "/"); i > 0 {
+		k, ok := num(body[i+1:])
+		_, okp := parent(body[:i])
+		return ok && k > 0 && okp
+	}
+	if i := strings.LastIndex(body, "&"); i > 0 {
+		m, ok := num(body[i+1:])
+		cur, okp := parent(body[:i])
+		if !ok || !okp || m <= 0 || cur.max() >= 1<<40 {
+			return false
+		}
+		low := m & -m
+		switch {
+		case m&(m+1) == 0:
+			return cur.max()/(m+1) <= 4096
+		case (m+low)&(m+low-1) == 0 && cur.max() < m+low:
+			return true
+		}
+	}
+	return false
+}
+
+// refineMasked: the derived term (X&m) has been restricted to `set`; restrict
+// X (known non-negative and bounded) to the exact pre-image. Two mask shapes
+// are handled: a run of high bits (m = 2^w − 2^k with X < 2^w: X&m clears the
+// low k bits, the pre-image of each multiple c of 2^k is [c, c+2^k−1]) and a
+// run of low bits (m = 2^k − 1: X&m = X mod 2^k, a periodic pre-image that is
+// enumerated when it has at most 4096 pieces).
+func refineMasked(st *State, x string, m int64, set iset) {
+	cur, ok := st.terms[x]
+	if !ok || cur.empty() || cur.min() < 0 || cur.max() >= 1<<40 {
+		return
+	}
+	low := m & -m // lowest set bit = 2^k
+	var pre iset
+	switch {
+	case m&(m+1) == 0:
+		// low-bit mask 2^k − 1
+		period := m + 1
+		if cur.max()/period > 4096 {
+			return
+		}
+		for base := int64(0); base <= cur.max(); base += period {
+			for _, iv0 := range set {
+				lo, hi := iv0.lo, iv0.hi
+				if lo < 0 {
+					lo = 0
+				}
+				if hi > m {
+					hi = m
+				}
+				if hi >= lo {
+					pre = append(pre, iv{base + lo, base + hi})
+				}
+			}
+		}
+	case (m+low)&(m+low-1) == 0 && cur.max() < m+low:
+		// high-bit mask 2^w − 2^k and X < 2^w
+		for _, iv0 := range set {
+			lo, hi := iv0.lo, iv0.hi
+			if lo < 0 {
+				lo = 0
+			}
+			if hi > m {
+				hi = m
+			}
+			first := (lo + low - 1) / low * low
+			last := hi / low * low
+			if hi >= lo && last >= first {
+				pre = append(pre, iv{first, last + low - 1})
+			}
+		}
+	default:
+		return
 	}
 	st.terms[x] = inter(cur, norm(pre))
 }
